@@ -44,7 +44,7 @@ def mutate_warmup(ctx, blobs, prop_prefix=None):
         return g
 
     ctx.verify("warmup-blobs" if blobs else "warmup", MUT, "Mutator.run", setup, post, registry=state_registry(),
-               extras=ext_records(), replayer="c07_records")
+               extras=ext_records(), replayer=getattr(ctx, "replayer_override", None) or "c07_records")
 
 
 # --------------------------------------------------------------------------- BaseMCMCRunner.run
@@ -188,7 +188,7 @@ def mcmc_run(ctx, cls, blobs):
     outer.ghostE = True
     ctx.verify(f"{cls}-{'blobs' if blobs else 'noblobs'}", MCMC, "BaseMCMCRunner.run", setup, post, registry=reg, extras=ext_records(),
                loops={0: outer, 1: LoopSpec(inv_props, label="proposals"), 2: LoopSpec(inv_true, label="adapt", modifies=("self.sigmas",))},
-               on_interp=on_interp, replayer="c07_records")
+               on_interp=on_interp, replayer=getattr(ctx, "replayer_override", None) or "c07_records")
 
 
 # --------------------------------------------------------------------------- Resampler.run
@@ -242,7 +242,7 @@ def resampler(ctx, scheme, blobs):
                 ("resampled-particles-are-whole-history-records", coherent(u, x, logl, b, n, finite=True))]
 
     ctx.verify(f"{scheme}-{'blobs' if blobs else 'noblobs'}", RES, "Resampler.run", setup, post, registry=reg, extras=ex,
-               replayer="c07_records")
+               replayer=getattr(ctx, "replayer_override", None) or "c07_records")
 
 
 # --------------------------------------------------------------------------- commit_current_to_history
@@ -289,7 +289,7 @@ def commit(ctx, blobs):
 
     reg = state_registry()
     ctx.verify("blobs" if blobs else "noblobs", SM, "StateManager.commit_current_to_history", setup, post, registry=reg,
-               extras=ext_records(), replayer="c07_records")
+               extras=ext_records(), replayer=getattr(ctx, "replayer_override", None) or "c07_records")
 
 
 # --------------------------------------------------------------------------- Mutator.run, beta > 0
@@ -351,7 +351,7 @@ def mutate_mcmc(ctx, blobs):
                 ("calls-counts-the-evaluated-points", cur["calls"] == info["calls0"] + to_z3(st.ghost.get("__E__", 0), "int"))]
 
     ctx.verify("mcmc-blobs" if blobs else "mcmc", MUT, "Mutator.run", setup, post, registry=reg, extras=ext_records(),
-               replayer="c07_records")
+               replayer=getattr(ctx, "replayer_override", None) or "c07_records")
 
 
 def run(ctx):
